@@ -14,7 +14,18 @@ def variants(case, rnd):
     """same program, other index values (the constraints must be identical for every index value)"""
     v = copy.deepcopy(case)
     v["ins"] = [rnd.randrange(0, 4) if 0 <= x < 4 else x for x in case["ins"]]
-    return [v]
+    # error checking off and an index outside every array: the accesses must leave the constraint system unsatisfiable
+    # for the honest witness (an out-of-bounds index cannot be proven)
+    u = copy.deepcopy(case)
+    u["cfg"] = dict(case["cfg"], ign=1)
+    u["ins"] = [rnd.choice([5, 7, -1, 1000]) if 0 <= x < 4 else x for x in case["ins"]]
+    u["role"] = "oob-unchecked"
+    return [v, u]
+
+
+def is_secret_oob(case, st):
+    """the failing access uses a secret index (public out-of-range indices are plain Python IndexErrors)"""
+    return st is not None and st[0] in ("arrget", "arrset") and any(arraygen.is_secret(case, q) for q in (st[3] if st[0] == "arrget" else st[2]))
 
 
 def val_of(iv):
@@ -32,6 +43,10 @@ def oracle(case, rec, group):
         want = arraygen.twin(case); oob = None
     except arraygen.TwinIndexError as e:
         want, oob = None, e.args[0]
+    if oob is not None and case["cfg"]["ign"]:
+        if rec["exn"] is None and not rec["unsat"] and is_secret_oob(case, oob):
+            out.append(dict(op="index", key="out-of-bounds-provable", what="with error checking off, a secret index outside the array leaves every recorded constraint satisfied: the out-of-bounds access can be proven", statement=oob))
+        return out
     if oob is not None:
         if rec["exn"] != "IndexError":
             out.append(dict(op="index", key="out-of-bounds", what="index outside the array did not raise IndexError (got %s)" % rec["exn"], statement=oob, msg=rec["msg"]))
@@ -62,7 +77,7 @@ def oracle(case, rec, group):
 
 def run(tier, seed):
     return tracecheck.run(PID, tier, seed, {}, oracle, n_quick=300, n_thorough=5000, variants=variants, casegen=casegen,
-                          require_props=False, level="translation_validation", mask=1 | 2 | 4 | 8, shrink_budget=6)
+                          mask=1 | 2 | 4 | 8, shrink_budget=6)
 
 
 def replay(payload):
